@@ -68,6 +68,20 @@ func runtimeOverlay(dir string) (map[string]string, error) {
 	if err != nil {
 		return nil, err
 	}
+	// sysmon asks a goroutine that has been running for 10 ms of wall time to
+	// yield; on a loaded machine that re-orders the run queue. No time slicing.
+	s, err = mustReplace(s, "const forcePreemptNS = 10 * 1000 * 1000 // 10ms", "const forcePreemptNS = 1 << 60", "no forced preemption")
+	if err != nil {
+		return nil, err
+	}
+	// A goroutine of the runtime itself (scavenger, finalizer) that wakes up at a
+	// real-time instant would take the P's "run next" slot and push one of the
+	// simulated goroutines to the tail of the queue. Plain FIFO queueing keeps
+	// the relative order of simulated goroutines independent of such wake-ups.
+	s, err = mustReplace(s, "\tif randomizeScheduler && next && randn(2) == 0 {\n\t\tnext = false\n\t}\n", "\tnext = false\n", "no runnext")
+	if err != nil {
+		return nil, err
+	}
 	if err := os.WriteFile(filepath.Join(od, "proc.go"), []byte(s), 0o644); err != nil {
 		return nil, err
 	}
@@ -78,6 +92,12 @@ func runtimeOverlay(dir string) (map[string]string, error) {
 		return nil, err
 	}
 	s, err = mustReplace(string(b), "\tglobalRand.state.Init(*seed)\n", "\tfor i := range seed {\n\t\tseed[i] = byte(i*7 + 1)\n\t}\n\tglobalRand.state.Init(*seed)\n", "fixed seed")
+	if err != nil {
+		return nil, err
+	}
+	// rand() feeds map iteration order and hash seeds from a per-M stream; which
+	// M runs the single P is not under our control, so use one global stream.
+	s, err = mustReplace(s, "func rand() uint64 {\n", "func rand() uint64 {\n\tif simDeterministic {\n\t\treturn simRand64(&simRandState)\n\t}\n", "global rand stream")
 	if err != nil {
 		return nil, err
 	}
@@ -102,7 +122,54 @@ func runtimeOverlay(dir string) (map[string]string, error) {
 	}
 	out[filepath.Join(rt, "runtime2.go")] = filepath.Join(od, "runtime2.go")
 
+	// The order of ready select cases and of same-instant fake timers is drawn
+	// from cheaprand, a per-M stream that the allocator and scheduler also consume
+	// at load-dependent moments. Give both their own deterministic sources.
+	for _, pt := range []struct{ file, old, new, what string }{
+		{"select.go", "j := cheaprandn(uint32(norder + 1))", "j := simRandn(&simSelectState, uint32(norder+1))", "select order"},
+		{"time.go", "t.rand = cheaprand()", "t.rand = simTimerOrd()", "timer tie order"},
+	} {
+		b, err := os.ReadFile(filepath.Join(rt, pt.file))
+		if err != nil {
+			return nil, err
+		}
+		s, err := mustReplace(string(b), pt.old, pt.new, pt.what)
+		if err != nil {
+			return nil, err
+		}
+		if err := os.WriteFile(filepath.Join(od, pt.file), []byte(s), 0o644); err != nil {
+			return nil, err
+		}
+		out[filepath.Join(rt, pt.file)] = filepath.Join(od, pt.file)
+	}
+
 	extra := `package runtime
+
+import "internal/runtime/atomic"
+
+const simDeterministic = true
+
+var simRandState, simSelectState uint64
+var simTimerCtr uint32
+
+//go:nosplit
+func simRand64(state *uint64) uint64 {
+	z := atomic.Xadd64(state, -0x61C8864680B583EB)
+	z = (z ^ (z >> 30)) * 0xBF58476D1CE4E5B9
+	z = (z ^ (z >> 27)) * 0x94D049BB133111EB
+	return z ^ (z >> 31)
+}
+
+//go:nosplit
+func simRandn(state *uint64, n uint32) uint32 {
+	return uint32((uint64(uint32(simRand64(state))) * uint64(n)) >> 32)
+}
+
+// simTimerOrd orders fake-time timers that fire at the same instant by the
+// order in which they were armed.
+//
+//go:nosplit
+func simTimerOrd() uint32 { return atomic.Xadd(&simTimerCtr, 1) }
 
 const simParentMask = 1<<20 - 1
 
